@@ -454,17 +454,22 @@ def _c12_similarity(h):
                     with watchdog(60):
                         R = lib_op(A, B)
                 except Exception as e:  # noqa: BLE001
-                    h.finding("similarity-dependence-absolute-tolerances", f"{where}: {type(e).__name__}: {e} (untransformed operands: fine)") if k != 1 or d != (0, 0) else h.ensure("operator-does-not-raise", False, detail=where)
+                    h.finding("similarity-dependence-absolute-tolerances", f"{where}: {type(e).__name__}: {e} (untransformed operands: fine)") if k != 1 else h.ensure("operator-does-not-raise-after-a-rigid-motion", False, detail=f"{where}: {type(e).__name__}: {e}")
                     continue
                 h.case((name, opname, k, ang != 0, d != (0, 0)), True)
                 st0, a0, mem0 = base[opname]
                 a1 = float(R) if isinstance(R, DefinedShape) else 0.0
                 mem1 = [T(p) in R for p in pts]
-                same = structure(R)[0:2] == st0[0:2] and abs(a1 - k * k * a0) <= 1e-5 * (1e-12 + k * k * abs(a0)) and mem1 == mem0
+                # crossing points are only located within the library's absolute 1e-6 distance tolerance; far from the
+                # origin float spacing adds to it: areas are compared at 1e-4 there, 1e-5 otherwise
+                atol = 1e-4 if max(abs(d[0]), abs(d[1])) > 1e3 else 1e-5
+                same = structure(R)[0:2] == st0[0:2] and abs(a1 - k * k * a0) <= atol * (1e-12 + k * k * abs(a0)) and mem1 == mem0
                 if not same:
                     msg = f"{where}: kind/components {st0[0:2]} -> {structure(R)[0:2]}, area/k^2 {a0} -> {a1 / (k * k)}, membership changes {sum(x != y for x, y in zip(mem0, mem1))}"
-                    if k < 1 or k > 1 or abs(d[0]) > 1e3:
+                    if k != 1:
                         # mechanism: absolute tolerances (1e-6 / 1e-9) in crossing search, point equality, degree reduction
+                        # act on a *rescaled* drawing; rigid motions (k == 1) are not excused: the unchanged tree is
+                        # translation and rotation invariant on this family
                         h.finding("similarity-dependence-absolute-tolerances", msg)
                     else:
                         h.ensure("result-independent-of-rigid-motion", False, detail=msg)
